@@ -29,7 +29,7 @@ var c09Sigmas = []string{"never", "always", "every2", "every3", "every11", "rate
 func c09Scenarios(cfg runCfg) []Scenario {
 	var out []Scenario
 	i := 0
-	reps := cfg.n(4, 20)
+	reps := cfg.n(4, 100)
 	for rep := 0; rep < reps; rep++ {
 		for _, n := range c09Ns {
 			for _, sg := range c09Sigmas {
@@ -40,25 +40,25 @@ func c09Scenarios(cfg runCfg) []Scenario {
 			}
 		}
 	}
-	for j := 0; j < cfg.n(200, 20); j++ {
+	for j := 0; j < cfg.n(200, 100); j++ {
 		if cfg.mine(i) {
 			out = append(out, Scenario{Family: "failfiles", Seed: mix(cfg.seed, 9, 1, uint64(j)), N: pick(newRng(uint64(j)), []int{1, 3, 17, 100}), K: 1 + j%5})
 		}
 		i++
 	}
-	for j := 0; j < cfg.n(240, 20); j++ {
+	for j := 0; j < cfg.n(240, 100); j++ {
 		if cfg.mine(i) {
 			out = append(out, Scenario{Family: "failing", Seed: mix(cfg.seed, 9, 2, uint64(j)), N: pick(newRng(uint64(j)), []int{1, 5, 100, 1000})})
 		}
 		i++
 	}
-	for j := 0; j < cfg.n(80, 10); j++ {
+	for j := 0; j < cfg.n(80, 50); j++ {
 		if cfg.mine(i) {
 			out = append(out, Scenario{Family: "realT", Seed: mix(cfg.seed, 9, 3, uint64(j)), K: j % 4})
 		}
 		i++
 	}
-	for j := 0; j < cfg.n(48, 10); j++ {
+	for j := 0; j < cfg.n(48, 50); j++ {
 		if cfg.mine(i) {
 			out = append(out, Scenario{Family: "flaky-failfile", Seed: mix(cfg.seed, 9, 4, uint64(j)), N: pick(newRng(uint64(j)), []int{5, 20, 100})})
 		}
@@ -447,7 +447,7 @@ func c11Scenarios(cfg runCfg) []Scenario {
 	for a := 0; a < 4; a++ {
 		for b := 0; b < 4; b++ {
 			for c := 0; c < 4; c++ {
-				for rep := 0; rep < cfg.n(2, 10); rep++ {
+				for rep := 0; rep < cfg.n(2, 50); rep++ {
 					if cfg.mine(i) {
 						out = append(out, Scenario{Family: "forced", Seed: mix(cfg.seed, 11, uint64(i)), S: four[a] + "," + four[b] + "," + four[c]})
 					}
@@ -465,7 +465,7 @@ func c11Scenarios(cfg runCfg) []Scenario {
 			i++
 		}
 	}
-	for j := 0; j < cfg.n(1600, 20); j++ {
+	for j := 0; j < cfg.n(1600, 100); j++ {
 		if cfg.mine(i) {
 			out = append(out, Scenario{Family: "random", Seed: mix(cfg.seed, 11, 9, uint64(j))})
 		}
